@@ -49,15 +49,23 @@ class FileManager:
         """Removes {note} from its last known *.zo file."""
         zpage = c.prepend_zdir(self._zdir, note.file_path)
         assert note.zid is not None
-        for i, line in enumerate(zpage.read_text().split("\n")):
-            if f" {note.zid} " in line:
-                start_idx = i
-                break
-        else:
-            err_ctx = f"ZID={note.zid} FILE={note.file_path}"
-            return Error(f"Unable to find note in file | {err_ctx}")
-        end_idx = start_idx + len(note.body.split("\n"))
         zlines = zpage.read_text().split("\n")
+        zid_marker = f" {note.zid} "
+        # Other notes may mention this ZID, so trust the line the index
+        # recorded for the note as long as it still carries the ZID; only
+        # search the file when it does not (the file has changed since).
+        known_idx = note.line_no - 1
+        if 0 <= known_idx < len(zlines) and zid_marker in zlines[known_idx]:
+            start_idx = known_idx
+        else:
+            for i, line in enumerate(zlines):
+                if zid_marker in line:
+                    start_idx = i
+                    break
+            else:
+                err_ctx = f"ZID={note.zid} FILE={note.file_path}"
+                return Error(f"Unable to find note in file | {err_ctx}")
+        end_idx = start_idx + len(note.body.split("\n"))
         new_zlines = zlines[:start_idx] + zlines[end_idx:]
         new_zcontents = "\n".join(new_zlines)
         zpage.write_text(new_zcontents)
